@@ -34,6 +34,7 @@ type VM struct {
 	curr      chan int
 	memory    int
 	limit     int
+	verif     verifState
 }
 
 func Debug() *VM {
@@ -53,6 +54,7 @@ func (vm *VM) Run(program *Program, env interface{}) (out interface{}, err error
 				Message:  fmt.Sprintf("%v", r),
 			}
 			err = f.Bind(program.Source)
+			vm.verifEnd(err)
 		}
 	}()
 
@@ -72,6 +74,7 @@ func (vm *VM) Run(program *Program, env interface{}) (out interface{}, err error
 
 	vm.bytecode = program.Bytecode
 	vm.constants = program.Constants
+	vm.verifBegin(program)
 
 	for vm.ip < len(vm.bytecode) {
 
@@ -82,6 +85,7 @@ func (vm *VM) Run(program *Program, env interface{}) (out interface{}, err error
 		vm.pp = vm.ip
 		vm.ip++
 		op := vm.bytecode[vm.pp]
+		vm.verifStep(op)
 
 		switch op {
 
@@ -219,11 +223,13 @@ func (vm *VM) Run(program *Program, env interface{}) (out interface{}, err error
 			min := toInt(a)
 			max := toInt(b)
 			size := max - min + 1
+			vm.verifAllocReq(size)
 			if vm.memory+size >= vm.limit {
 				panic("memory budget exceeded")
 			}
 			vm.push(makeRange(min, max))
 			vm.memory += size
+			vm.verifAlloc(size, vm.current())
 
 		case OpMatches:
 			b := vm.pop()
@@ -346,6 +352,7 @@ func (vm *VM) Run(program *Program, env interface{}) (out interface{}, err error
 			}
 			vm.push(array)
 			vm.memory += size
+			vm.verifAlloc(size, array)
 			if vm.memory >= vm.limit {
 				panic("memory budget exceeded")
 			}
@@ -360,6 +367,7 @@ func (vm *VM) Run(program *Program, env interface{}) (out interface{}, err error
 			}
 			vm.push(m)
 			vm.memory += size
+			vm.verifAlloc(size, m)
 			if vm.memory >= vm.limit {
 				panic("memory budget exceeded")
 			}
@@ -415,6 +423,7 @@ func (vm *VM) Run(program *Program, env interface{}) (out interface{}, err error
 		close(vm.step)
 	}
 
+	vm.verifEnd(nil)
 	if len(vm.stack) > 0 {
 		return vm.pop(), nil
 	}
